@@ -204,6 +204,9 @@ def run_ops(ops, tag, impl_flags=(), timeout=1800, impl_only=False):
             b = b + ["model-died"] * (len(ch) - len(b))
         impl.extend(a)
         model.extend(b)
+    if not problems:
+        import shutil
+        shutil.rmtree(d, ignore_errors=True)   # scratch of a clean run is not kept (disk)
     return impl, model, problems
 
 
